@@ -319,7 +319,21 @@ def gen_cases(rng, n, tier):
                 rows.append((start, segv, pop, nrm))
             cases.append({"kind": "isp_pairs", "scale": scale, "starts": [r[0] for r in rows], "segvs": [r[1] for r in rows],
                           "pops": [r[2] for r in rows], "nrms": [r[3] for r in rows]})
+    for c in cases:
+        if c["kind"] != "isp_pairs" and not c["exact"] and _undecided(c):
+            c["kind"] += "_undecided"   # shows in the evidence histogram: (part of) the case is skipped, not judged
     return cases
+
+
+def _undecided(c):
+    """a generic-plane case with an endpoint within the band of the plane / a ray within the band of parallel:
+    those rows (for a polyline: the whole case) are excluded by the property text and skipped by the check"""
+    ref, nrm = [Fr(x) for x in c["ref"]], [Fr(x) for x in c["normal"]]
+    band = Fr(c["scale"]) / 10 ** 6
+    if c["kind"].startswith("lines"):
+        return any(abs(sum(Fr(x) * n for x, n in zip(r, nrm))) <= Fr(1, 10 ** 6) * max(abs(Fr(x)) for x in r) for r in c["rays"])
+    pts = c["v"] if c["kind"].startswith("polyline") else c["a"] + c["b"]
+    return any(abs(sum((Fr(x) - r) * n for x, r, n in zip(p, ref, nrm))) <= band for p in pts)
 
 
 def _arr(pts):
@@ -543,9 +557,14 @@ def oracle(c, o):
         return None
     edges = [(i, i + 1) for i in range(nv - 1)] + ([(nv - 1, 0)] if c["closed"] and nv >= 1 else [])
     idx, pts = o["idx"], o["pts"]
-    if len(idx) != len(pts) or o["pts_only"] != pts and not all(_is_nan_row(r) for r in pts):
-        if len(o["pts_only"]) != len(pts):
-            return "intersect_plane returns different points with and without ret_edge_indices"
+    if len(idx) != len(pts):
+        return "intersect_plane returns %d points for %d edge indices" % (len(pts), len(idx))
+
+    def same_row(r1, r2):   # NaN-aware equality of two observed rows
+        return len(r1) == len(r2) and all(x == y or (x != x and y != y) for x, y in zip(r1, r2))
+
+    if len(o["pts_only"]) != len(pts) or not all(same_row(r1, r2) for r1, r2 in zip(o["pts_only"], pts)):
+        return "intersect_plane returns different points with and without ret_edge_indices"
     if idx != sorted(set(idx)) or any(i < 0 or i >= len(edges) for i in idx):
         return "edge indices %r are not strictly ascending edge numbers" % (idx,)
     mag = max([scale] + [abs(x) for p in v for x in p] + [abs(x) for x in ref])
